@@ -327,6 +327,12 @@ func (c *simConn) ReadFrom() (ndp.Message, *ipv6.ControlMessage, netip.Addr, err
 				// ndp.Conn filters unparsable messages.
 				continue
 			}
+			if pf, _ := c.w.decide("read.post", c.ifc.n.id, c.ifc.spec.Name, ""); pf != nil {
+				// the packet has been received, the call is slow to return
+				// (scheduling, a busy machine): things may happen meanwhile
+				c.w.log.Add(verifsim.Event{K: "read.post", Node: c.ifc.n.id, If: c.ifc.spec.Name, Gen: c.gen, F: faultTag(pf)})
+				c.w.park(pf)
+			}
 			x := c.ev("read.exit")
 			x.Ref, x.S, x.B, x.V = ref, p.src.String(), p.b, int64(p.hop)
 			c.w.log.Add(x)
